@@ -373,8 +373,8 @@ set_status_internal_t ordered_integer_set_minus(
 static
 void lp_feasibility_set_int_invert(lp_feasibility_set_int_t *set) {
   assert(set->K != lp_Z);
-  // don't invert big fields
-  assert(lp_integer_cmp_int(lp_Z, &set->K->M, 10000) < 0);
+  // the field has to fit into a long (the caller only inverts when a listed set is bigger than the complement)
+  assert(mpz_fits_slong_p(&set->K->M));
 
   size_t cnt = lp_integer_to_int(&set->K->M);
   assert(set->size <= cnt);
